@@ -282,7 +282,7 @@ func (e *Engine) inlinable(fn *ssa.Function) bool {
 		}
 	}
 	if strings.HasPrefix(pp, "google.golang.org/protobuf/types/known/") {
-		if strings.HasPrefix(fn.Name(), "Get") || fn.Name() == "AsDuration" || (fn.Name() == "New" && strings.HasSuffix(pp, "durationpb")) {
+		if strings.HasPrefix(fn.Name(), "Get") || fn.Name() == "AsDuration" || (fn.Name() == "New" && (strings.HasSuffix(pp, "durationpb") || strings.HasSuffix(pp, "timestamppb"))) {
 			return true
 		}
 	}
